@@ -12,7 +12,7 @@ COMMON_TB = [
 ]
 
 NOT_YET = {}
-IN_PROGRESS = set()
+IN_PROGRESS = {"C17"}
 
 PROPS = {
     "C20": {
